@@ -49,6 +49,8 @@ type c11Run struct {
 	lastActivity       time.Time
 	rejectSuffix       []string          // entities whose id ends like this are refused by the dataset sink, always
 	runOf              map[uint64]*c11Rec // goroutine id -> the run it is executing
+	sourceGone         bool               // the source dataset of the focused copy job has been deleted (variant "source disappears")
+	oldAfterGone       int                // deliveries holding entities of the deleted incarnation since then
 }
 
 type c11Rec struct {
@@ -321,7 +323,7 @@ func (r *c11Run) installHooks() {
 	hooks.onFaultOn = func(owner any, name string, subject any, hit int64) error {
 		// anything that calls into the hub (and may park at a hook there) happens before the harness lock is taken
 		var sinkIDs []string
-		if name == "sink.dataset" && len(r.rejectSuffix) > 0 {
+		if name == "sink.dataset" && (len(r.rejectSuffix) > 0 || r.Sc.Knob("dropOracle", 0) == 1) {
 			sinkIDs = entIDs(r.H, subject)
 		}
 		gid := curGid()
@@ -374,6 +376,19 @@ func (r *c11Run) installHooks() {
 				r.resulted[id]++
 			}
 		case "sink.dataset", "transform.batch":
+			if rec := r.runOf[gid]; name == "sink.dataset" && r.sourceGone && rec != nil && rec.id == "job1" {
+				// the source dataset was deleted (and perhaps created again, empty) while the run was under way. The batch
+				// that had been read before may still arrive; after it nothing of the deleted dataset may
+				for _, id := range sinkIDs {
+					if strings.Contains(id, "/old") {
+						r.oldAfterGone++
+						if r.oldAfterGone >= 2 {
+							r.fail(viol("C11", "deleted-source", "run-delivers-deleted-dataset", "the source dataset of a running copy job was deleted; %d deliveries later the run still hands entities of the deleted dataset to its sink (%s)", r.oldAfterGone, shortURI(id)))
+						}
+						break
+					}
+				}
+			}
 			if name == "sink.dataset" && len(r.rejectSuffix) > 0 {
 				for _, id := range sinkIDs {
 					for _, sfx := range r.rejectSuffix {
@@ -513,6 +528,11 @@ func (r *c11Run) clientOp(op *Op) {
 		}
 		if err := h.Dsm.DeleteDataset(op.DS); err == nil {
 			count("datasets_deleted")
+			if r.Sc.Knob("dropOracle", 0) == 1 && op.DS == "dA" {
+				r.mu.Lock()
+				r.sourceGone = true
+				r.mu.Unlock()
+			}
 		}
 	case "createDataset":
 		if _, err := h.Dsm.CreateDataset(op.DS, nil); err == nil {
